@@ -1,65 +1,22 @@
 #!/usr/bin/env python3
-"""Regenerates /verif/MANIFEST.json from the table below (single source of truth for the interface)."""
+"""Regenerates /verif/MANIFEST.json from manifest_entries/Cxx.json (one file per claimed property:
+{text, note, technique, design, [category]}) and manifest_entries/NA.json ({Cxx: reason} for unclaimed ones)."""
 import json
+from pathlib import Path
 
-CHECKS = {
-    "C11": dict(
-        text="Coq theorems over Vlen.v for all sequences (no size bound): decode(encode l)=l, offsets contiguous from 0, "
-             "every slice in bounds, encoder accepts iff one rank+dtype, normalisation spec (one dtype/rank, Nones flagged, "
-             "safe cast + leading-axis padding, size preserved), normalised output always encodable, order-freeness under "
-             "Permutation. Tie: model evaluated in Coq (vm_compute) against numpy's can_cast/promote_types/result_type tables "
-             "(exhaustive) and geff's serialize/deserialize/construct_var_len_props on generated sequences.",
-        note="Trusted: Coq kernel+VM, harness (generators, term printer), np.asarray as abstraction boundary; strings/objects oracle-only; "
-             "float payloads restricted to multiples of 2^-10.",
-        technique="Coq proof (induction over sequences, Permutation) + vm_compute correspondence",
-        design="6/C11"),
-    "C12": dict(
-        text="Coq theorems over GraphVal.v for all id/edge lists over Z (every integer dtype, full range): the graph part of "
-             "validate_data passes iff ids unique, endpoints exist, no self edge, no repeated edge (ordered if directed, unordered "
-             "via norm_edge otherwise); offender lists are exactly the offenders (membership iff count>1 / filter spec, NoDup); "
-             "sphere iff 1-D and non-negative over non-missing entries; ellipsoid iff (N,d,d) with d=#space axes, symmetric and "
-             "Sylvester-positive over non-missing entries; dispatch theorem (raises iff an enabled+declared validator fails). "
-             "Tie: validators' verdicts and offender arrays, and validate_data outcomes, compared with the model in Coq.",
-        note="Trusted: Coq kernel+VM, harness; np.unique/np.isin modelled by meaning; positive-definite = Sylvester criterion "
-             "(equivalence with the quadratic-form definition not re-proved); eigvals/allclose tied only on small integer, "
-             "non-singular matrices; lineage/tracklet flags of validate_data are oracle-only here (modelled in C13/C14).",
-        technique="Coq proof (iff by induction, NoDup/count lemmas) + vm_compute correspondence",
-        design="6/C12"),
-    "C13": dict(
-        text="Coq theorems over Tracks.v for all edge lists and labellings (no size bound; unique node ids, edges between listed "
-             "nodes): validate_tracklets reports no invalid tracklet iff (L) adjacent nodes share an id exactly when their edge is the "
-             "only edge leaving its source and the only edge entering its target and (C) every tracklet is weakly connected, i.e. the "
-             "classes are the maximal unbranched paths; per-class soundness/completeness; the ids named in the messages are exactly "
-             "the invalid tracklets. Weak connectivity via Reach.v (fuelled closure proved sound and complete). Tie: verdict and named "
-             "ids of validate_tracklets (and validate_data(tracklet=True)) compared with the model in Coq on all DAGs<=4 nodes x "
-             "labellings (exhaustive block) plus random larger DAGs.",
-        note="Trusted: Coq kernel+VM, harness; networkx DiGraph/subgraph/degree/is_weakly_connected modelled by meaning; the code's "
-             "cycle test is not modelled (property quantifies over acyclic graphs; generators emit DAGs only).",
-        technique="Coq proof (iff via local edge condition + reachability soundness/completeness) + vm_compute correspondence",
-        design="6/C13"),
-    "C14": dict(
-        text="Coq theorems over Tracks.v for all digraphs (cycles allowed, edges may mention absent ids) and labellings with unique "
-             "node ids: validate_lineages reports no invalid lineage iff nodes share a lineage id exactly when weakly connected and no "
-             "listed node is connected to an id outside the node list; per-lineage component test spec; names theorem; reachability "
-             "soundness and completeness. Tie: verdict and named ids compared with the model in Coq on all digraphs<=3 nodes "
-             "(<=4 in thorough) x labellings, absent-id variants, random 5-7 node graphs.",
-        note="Trusted: Coq kernel+VM, harness; networkx weakly_connected_components modelled by undirected reachability.",
-        technique="Coq proof (component characterisation by reachability, induction) + vm_compute correspondence",
-        design="6/C14"),
-}
-
-NOT_YET = {
-}
-
+HERE = Path(__file__).resolve().parent
 ALL = [f"C{i:02d}" for i in range(1, 21)]
 
 
 def main():
+    entries = {p.stem: json.loads(p.read_text()) for p in sorted((HERE / "manifest_entries").glob("C*.json"))}
+    na_file = HERE / "manifest_entries" / "NA.json"
+    na_reasons = json.loads(na_file.read_text()) if na_file.exists() else {}
     checks = []
     for pid in ALL:
-        if pid not in CHECKS:
+        if pid not in entries:
             continue
-        c = CHECKS[pid]
+        c = entries[pid]
         checks.append({
             "property_id": pid,
             "quick_cmd": f"./check {pid} --tier quick",
@@ -67,12 +24,12 @@ def main():
             "evidence_file": f"/verif/evidence/{pid}.json",
             "replay_cmd_template": f"./check {pid} --replay {{path}}",
             "engine": "coq-model+correspondence",
-            "level_claimed": {"category": "proof", "text": c["text"], "design_ref": f"DESIGN.md section {c['design']}"},
+            "level_claimed": {"category": c.get("category", "proof"), "text": c["text"], "design_ref": f"DESIGN.md section {c['design']}"},
             "level_note": c["note"],
             "technique": c["technique"],
         })
-    na = [{"property_id": pid, "reason": NOT_YET.get(pid, "check not built yet in this round (work in progress; see DESIGN.md section 10)")}
-          for pid in ALL if pid not in CHECKS]
+    na = [{"property_id": pid, "reason": na_reasons.get(pid, "check not built yet (work in progress; see DESIGN.md section 10)")}
+          for pid in ALL if pid not in entries]
     m = {
         "version": 1,
         "setup_cmd": "./check --setup",
@@ -95,7 +52,7 @@ def main():
         "notes": "All checks force PYTHONPATH to /repo's working tree (the venv otherwise imports an installed wheel). "
                  "Exit 0 held / 1 violation / 2 harness error. KNOWN_FINDINGS.txt lists open and fixed findings.",
     }
-    json.dump(m, open("/verif/MANIFEST.json", "w"), indent=1)
+    json.dump(m, open(HERE / "MANIFEST.json", "w"), indent=1)
 
 
 if __name__ == "__main__":
